@@ -93,7 +93,9 @@ func (k *acctKind) vSet() []namedInt {
 	}
 	out := []namedInt{{"v0", k.v0}, {"flip", flip}, {"0", bi(0)}, {"1", bi(1)}, {"26", bi(26)}, {"27", bi(27)}, {"28", bi(28)}, {"29", bi(29)},
 		{"35+2c", vProt(chainC, 0)}, {"36+2c", vProt(chainC, 1)}, {"37+2c", vProt(chainC, 2)}, {"35+2(c+1)", vProt(c1, 0)}, {"36+2(c+1)", vProt(c1, 1)},
-		{"v0+2^8", add(k.v0, bi(256))}, {"v0+2^64", add(k.v0, two64)}}
+		{"v0+2^8", add(k.v0, bi(256))}, {"v0+2^64", add(k.v0, two64)},
+		// v - 2c - 8 = -27 / -28: the subtraction in recover() goes negative and big.Int.Uint64() returns the magnitude
+		{"2c+8-27", sub(add(new(big.Int).Mul(chainC, bi(2)), bi(8)), bi(27))}, {"2c+8-28", sub(add(new(big.Int).Mul(chainC, bi(2)), bi(8)), bi(28))}}
 	// drop later duplicates of v0/flip (the named forms stay in front)
 	var res []namedInt
 	seen := map[string]bool{}
@@ -237,6 +239,9 @@ func (k *acctKind) prepare(r *vk.Run) {
 
 // ---- one case ----------------------------------------------------------------------------------------
 
+// distinctTx counts the distinct transactions (wire encodings) materialised by all parts of the check.
+var distinctTx int64
+
 type acctStats struct {
 	cases, accepted, acceptedA, rejected, rejectedWire, otherSender int64
 }
@@ -304,10 +309,11 @@ func (k *acctKind) evalSig(r *vk.Run, cb combo, sg sigAlt, hashMap bool, st *acc
 		return
 	}
 	same := bytes.Equal(wire, k.baseWire)
+	atomic.AddInt64(&distinctTx, 1)
 	h := tx0.Hash()
 	hashInexact := (h == k.baseHash) != same
 	if hashInexact {
-		cls := k.rootKind() + ":signature[" + k.sigComponents(sg) + "]"
+		cls := k.rootKind() + ":signature"
 		if len(cb) > 0 {
 			cls = k.rootKind() + ":field=" + k.blameFields(cb)
 		}
@@ -434,10 +440,11 @@ func (k *acctKind) blameFields(cb combo) string {
 			bad = append(bad, f)
 		}
 	}
-	if len(bad) > 0 {
-		all = bad
-	}
 	sort.Strings(all)
+	sort.Strings(bad)
+	if len(bad) > 0 {
+		return bad[0]
+	}
 	return strings.Join(all, "+")
 }
 
@@ -459,21 +466,6 @@ func (k *acctKind) devClass(cb combo, sg sigAlt, chain string) string {
 		d = append(d, "unprotected-base")
 	}
 	return strings.Join(d, ":")
-}
-
-// sigComponents: which of r, s, v deviate (names only).
-func (k *acctKind) sigComponents(sg sigAlt) string {
-	var d []string
-	if sg.r.name != "r0" {
-		d = append(d, "r")
-	}
-	if sg.s.name != "s0" {
-		d = append(d, "s")
-	}
-	if sg.v.name != "v0" {
-		d = append(d, "v")
-	}
-	return strings.Join(d, ",")
 }
 
 func (k *acctKind) replayOf(cb combo, sg sigAlt, chain, cache string, wire []byte) replay {
@@ -498,9 +490,10 @@ type kindReport struct {
 
 // run enumerates the kind. Signature alphabets: full = r x s x v; axis = at most one of r, s, v deviates, plus
 // the malleable twin (N-s0 with flipped v) and its halves; few = {untouched, twin, flipped v}.
-//   quick:    no field mutation x full, one field mutation x axis, two field mutations x few
-//             (= every single and every pairwise deviation over the dimensions field, field, r, s, v)
-//   thorough: (<=1 field mutation) x full, two field mutations x full (light kinds) or x axis (kinds marked heavy)
+//
+//	quick:    no field mutation x full, one field mutation x axis, two field mutations x few
+//	          (= every single and every pairwise deviation over the dimensions field, field, r, s, v)
+//	thorough: (<=1 field mutation) x full, two field mutations x full (light kinds) or x axis (kinds marked heavy)
 func (k *acctKind) run(r *vk.Run, quick bool) kindReport {
 	rs, ss, vs := k.rSet(), k.sSet(), k.vSet()
 	var full, axis []sigAlt
